@@ -55,7 +55,13 @@ def _parse_tsan(text):
         yield ("tsan:%s:%s" % (kind, "+".join(sorted(set(inner)))), kind, blk, True)
 
 
-def _run(exe, args, tsan, tmo=300):
+STALL_S = 120       # no completed operation for this long = stuck (the heartbeat thread of the harness keeps reporting)
+TOTAL_S = 3000      # generous wall-clock watchdog: its firing while the count still moves is inconclusive, not a verdict
+
+
+def _run(exe, args, tsan, stall=STALL_S, total=TOTAL_S):
+    """returns (rc, stdout, stderr, tsan logs); rc = None: stalled (no progress for `stall` s), rc = "slow": total exceeded"""
+    import threading, time
     d = tempfile.mkdtemp(prefix="c18_", dir=os.path.join(build.VERIF, "out"))
     env = dict(os.environ)
     if tsan:
@@ -63,14 +69,43 @@ def _run(exe, args, tsan, tmo=300):
         open(sp, "w").write(SUPP)
         env["TSAN_OPTIONS"] = "halt_on_error=0 log_path=%s/ts exitcode=0 second_deadlock_stack=1 suppressions=%s history_size=4" % (d, sp)
     try:
-        p = subprocess.run([exe] + [str(a) for a in args], capture_output=True, text=True, timeout=tmo, env=env)
+        p = subprocess.Popen([exe] + [str(a) for a in args], stdout=subprocess.PIPE, stderr=subprocess.PIPE, text=True, env=env)
+        st = {"prog": None, "moved": time.time(), "beats": 0, "err": []}
+
+        def rd_err():
+            for line in p.stderr:
+                if line.startswith("P "):
+                    st["beats"] += 1
+                    if line != st["prog"]:
+                        st["prog"], st["moved"] = line, time.time()
+                else:
+                    st["err"].append(line)
+        outl = []
+        te = threading.Thread(target=rd_err, daemon=True)
+        to = threading.Thread(target=lambda: outl.append(p.stdout.read()), daemon=True)
+        te.start(), to.start()
+        t0 = time.time()
+        verdict = "done"
+        while p.poll() is None:
+            time.sleep(0.05 if time.time() - t0 < 5 else 0.5)
+            now = time.time()
+            if now - st["moved"] > stall and st["beats"] > 0:
+                verdict = None
+                break
+            if now - t0 > total:
+                verdict = "slow"
+                break
+        if verdict != "done":
+            p.kill()
+        p.wait()
+        te.join(5), to.join(5)
+        if verdict != "done":
+            return verdict, "", "no progress for %d s at %s" % (stall, st["prog"]) if verdict is None else "still progressing after %d s" % total, ""
         logs = ""
         for f in sorted(os.listdir(d)):
             if f.startswith("ts."):
                 logs += open(os.path.join(d, f), errors="replace").read()
-        return p.returncode, p.stdout, p.stderr, logs
-    except subprocess.TimeoutExpired:
-        return None, "", "timeout", ""
+        return p.returncode, "".join(outl), "".join(st["err"]), logs
     finally:
         shutil.rmtree(d, ignore_errors=True)
 
@@ -106,11 +141,17 @@ def unit_mt(ctx):
         rc, out, err, logs = _run(exe, args, tsan)
         totals["processes"] += 1
         if rc is None:
-            rc2, out, err, logs = _run(exe, args, tsan, tmo=600)
+            rc2, out, err2, logs = _run(exe, args, tsan)
             if rc2 is None:
-                ctx.violation("hang:%s" % mode, "harness did not finish twice (possible deadlock/livelock)", {"args": args})
-                continue
-            rc = rc2
+                # twice no operation completed for STALL_S seconds while the heartbeat thread kept running: reported, and the
+                # remaining runs of this job are abandoned (each could block for the same time)
+                ctx.violation("hang:%s" % mode, "no thread completed an operation for %d s, twice with the same arguments "
+                              "(deadlock / livelock)" % STALL_S, {"args": args, "first": err, "second": err2})
+                ctx.note("abandoned_after_hang", {"mode": mode, "run": i, "of": P["runs"]})
+                break
+            rc, err = rc2, err2
+        if rc == "slow":
+            raise Harness("mt_harness still progressing after %d s (machine overloaded?): %s" % (TOTAL_S, args))
         if rc != 0:
             if rc < 0 or "Assertion in" in err:
                 ctx.violation("crash:%s:%s" % (mode, ("assert" if "Assertion" in err else "signal%d" % -rc)),
